@@ -65,8 +65,11 @@ def truncateAndRoundFixed (w m r : Nat) (exp : Int) (o : WOpts) : Nat × Nat :=
       ((sh' <<< shr) % 2 ^ w, mb + (initial - final))
   else (m, mb)
 
+def truncateAndRoundSel (fixed : Bool) (w m r : Nat) (exp : Int) (o : WOpts) : Nat × Nat :=
+  if fixed then truncateAndRoundFixed w m r exp o else truncateAndRoundCur w m r o
+
 def truncateAndRoundBits (w m r : Nat) (exp : Int) (o : WOpts) : Nat × Nat :=
-  if pow2DigitFix then truncateAndRoundFixed w m r exp o else truncateAndRoundCur w m r o
+  truncateAndRoundSel pow2DigitFix w m r exp o
 
 /-- `binary::write_float` / `hex::write_float` after `truncate_and_round`: `WriteBinary.layoutME` with the bit count
 as a parameter -/
@@ -87,16 +90,17 @@ def layoutMB (fmt : Format) (o : WOpts) (w m mb : Nat) (exp : Int) : Layout :=
 theorem layoutME_eq (fmt : Format) (o : WOpts) (w m : Nat) (exp : Int) :
     layoutME fmt o w m exp = layoutMB fmt o w m (significantBits m) exp := rfl
 
-/-- the writers under digit options, on `(mantissa, exponent)` -/
-def layoutMEO (fmt : Format) (o : WOpts) (w m : Nat) (exp : Int) : Layout :=
-  let tr := truncateAndRoundBits w m fmt.mantissaRadix exp o
+/-- the writers under digit options, on `(mantissa, exponent)`; `fixed` selects the `truncate_and_round` -/
+def layoutMEOWith (fixed : Bool) (fmt : Format) (o : WOpts) (w m : Nat) (exp : Int) : Layout :=
+  let tr := truncateAndRoundSel fixed w m fmt.mantissaRadix exp o
   layoutMB fmt o w tr.1 tr.2 exp
 
-def layoutBitsO (fmt : Format) (o : WOpts) (t : FTy) (bits : Nat) : Layout :=
-  layoutMEO fmt o t.bits (t.mantissa bits) (t.exponent bits)
+def layoutBitsOWith (fixed : Bool) (fmt : Format) (o : WOpts) (t : FTy) (bits : Nat) : Layout :=
+  layoutMEOWith fixed fmt o t.bits (t.mantissa bits) (t.exponent bits)
 
 /-- `WriteFloat::write_float` for a power-of-two radix with any digit options. `none` = PANIC (disabled special). -/
-def writeFloatO (fmt : Format) (feats : Features) (o : WOpts) (t : FTy) (bits : Nat) : Option (List Nat) :=
+def writeFloatOWith (fixed : Bool) (fmt : Format) (feats : Features) (o : WOpts) (t : FTy) (bits : Nat) :
+    Option (List Nat) :=
   let neg := bits &&& t.signMask ≠ 0
   let mag := bits &&& (t.signMask - 1)
   let isSpecial := mag &&& t.exponentMask = t.exponentMask
@@ -105,6 +109,11 @@ def writeFloatO (fmt : Format) (feats : Features) (o : WOpts) (t : FTy) (bits : 
     if neg ∧ ¬ isNaN then [45] else if feats.format ∧ fmt.requiredMantissaSign then [43] else []
   if isNaN then o.nan.map (sign ++ ·)
   else if isSpecial then o.inf.map (sign ++ ·)
-  else some (sign ++ render fmt feats o (layoutBitsO fmt o t mag))
+  else some (sign ++ render fmt feats o (layoutBitsOWith fixed fmt o t mag))
+
+/-- the code under test -/
+def layoutMEO (fmt : Format) (o : WOpts) (w m : Nat) (exp : Int) : Layout := layoutMEOWith pow2DigitFix fmt o w m exp
+def writeFloatO (fmt : Format) (feats : Features) (o : WOpts) (t : FTy) (bits : Nat) : Option (List Nat) :=
+  writeFloatOWith pow2DigitFix fmt feats o t bits
 
 end LexVerif.Model.WriteBinary
